@@ -146,6 +146,10 @@ MIXED_SYMS = {"a": "a", "b": 1, "c": 2.5, "ab": "ab", "abc": 7, "x": "x", "y": 3
 
 
 def yval(case, name):
+    if case["symmode"].startswith("cfg:"):
+        # the values the grammar workload gives its terminals in that valmode (ints, floats)
+        from gens.cfg import TERM_MAPS
+        return TERM_MAPS[case["symmode"][4:]].get(name, name)
     if case["symmode"] == "mixed":
         # symbols of mutually incomparable types in one alphabet (str, int, float)
         return MIXED_SYMS.get(name, name)
